@@ -118,6 +118,7 @@ type Val struct {
 }
 
 type VC struct {
+	curInstr ssa.Instruction // the instruction being executed (for pseudo-callee atcall sites)
 	p        *Prog
 	fnName   string
 	out      []string
